@@ -215,3 +215,76 @@ Proof. exact add_many_loop_step. Qed.
 (* non-vacuity of the eigh / argsort contracts *)
 Example C02_eigh_ok_ex : msym exC /\ eigh_ok exC [9; 1]%R exI /\ argsort_ok [3; 1]%R [1; 0]%nat.
 Proof. exact eigh_ok_ex. Qed.
+
+(* ---------------------------------------------------------------------------------------------
+   truncate(Y, e, r, orth=True, use_stab=True, is_eigh), both modes, exact arithmetic: the stabilised orthogonalisation
+   returns Zs with 2^p Zs = Y, the sweep runs on Zs, every core of the result is multiplied by 2**(p/d); under the root
+   law (2**(p/d))^d = 2^p (satisfiable: C02_root_law_ex) the same conclusions as without stabilisation.
+   --------------------------------------------------------------------------------------------- *)
+From TV Require Import Model.Stab Proofs.TruncP6 Proofs.TruncP7.
+Theorem C02_truncate_error_stab :
+  forall (svdo : nat -> mat R -> mat R * list R * mat R) (eigh : nat -> mat R -> list R * mat R)
+         (argsort : nat -> list R -> list nat) (qr rq : nat -> mat R -> mat R * mat R)
+         (ilog2 : nat -> R -> Z) (pow2frac : Z -> nat -> R),
+  (forall k A, qr_ok OR A (fst (qr k A)) (snd (qr k A))) ->
+  (forall k A, rq_ok OR A (fst (rq k A)) (snd (rq k A))) ->
+  (forall k A, svd_ok OR A (fst (fst (svdo k A))) (snd (fst (svdo k A))) (snd (svdo k A))) ->
+  (forall k C, msym C -> eigh_ok C (fst (eigh k C)) (snd (eigh k C))) ->
+  (forall k l, argsort_ok l (argsort k l)) ->
+  (forall p d, (1 <= d)%nat -> opow OR (pow2frac p d) d = powerRZ 2 p) ->
+  forall (rcap : Z) (is_eigh : bool) (Y : list (core R)) (e : R),
+  wfI (shape Y) Y -> (2 <= length Y)%nat -> (0 <= e)%R ->
+  exists W, truncate OR svdo eigh argsort qr rq ilog2 pow2frac Y e rcap true true is_eigh = Ok W /\
+    length W = length Y /\ chain 1 W 1 /\ shape W = shape Y /\
+    (forall k, (1 <= k < length Y)%nat ->
+       (1 <= cr1 (nth k W dcore))%nat /\ (cr1 (nth k W dcore) <= cr1 (nth k Y dcore))%nat /\
+       (Z.of_nat (cr1 (nth k W dcore)) <= Z.max 1 rcap)%Z) /\
+    ((forall k, (1 <= k < length Y)%nat -> (Z.of_nat (cr1 (nth k W dcore)) < rcap)%Z) ->
+     (dist2 OR Y W <= e * e * tnorm2 OR Y)%R).
+Proof. exact truncate_error_stab. Qed.
+Example C02_root_law_ex : forall p d, (1 <= d)%nat -> opow OR (rootR p d) d = powerRZ 2 p.
+Proof. exact root_law_ex. Qed.
+
+(* ---------------------------------------------------------------------------------------------
+   Rank clause "no returned rank exceeds the smallest rank that meets the budget" -- PARTIAL.
+   Matrix level, SVD mode (full): the rank matrix_skeleton returns is the rank rule applied to the squared singular values
+   s of that matrix, so every smaller rank q' >= 1 discards sum_{c >= q'} s_c^2 > e^2.
+   First truncated bond k = d-1 of truncate (SVD mode, no stabilisation): the returned rank r_{d-1} is the rank rule applied
+   to the singular values s of the right unfolding of the last orthogonalised core with budget e'^2 = e^2 |Y|^2 / (d-1),
+   every smaller rank misses that budget (C02_first_bond_rank_partial), and those s are singular values of the (d-1)-unfolding
+   of the tensor itself: X = (P U) diag(s) Vt with P U orthonormal (C02_first_bond_svd).
+   Missing: the other bonds (interlacing), the eigen-decomposition mode at tensor level, and the identification of
+   sum_{c >= q'} s_c^2 with the best rank-q' error (Eckart-Young; needs s sorted, which the contracts do not assume).
+   --------------------------------------------------------------------------------------------- *)
+Theorem C02_skeleton_rank_minimal : forall (svdo : nat -> mat R -> mat R * list R * mat R),
+  (forall k A, svd_ok OR A (fst (fst (svdo k A))) (snd (fst (svdo k A))) (snd (svdo k A))) ->
+  forall k (A : mat R) e rcap q', (1 <= mr A)%nat -> (1 <= mc A)%nat ->
+  (1 <= q')%nat -> (q' < mc (fst (matrix_skeleton OR svdo k A e rcap false GiveL)))%nat ->
+  (e * e < tailsum (map (fun x => x * x) (snd (fst (svdo k A)))) q')%R.
+Proof. exact skeleton_rank_minimal. Qed.
+
+Theorem C02_first_bond_rank_partial :
+  forall (svdo : nat -> mat R -> mat R * list R * mat R) (eigh : nat -> mat R -> list R * mat R)
+         (argsort : nat -> list R -> list nat) (qr rq : nat -> mat R -> mat R * mat R)
+         (ilog2 : nat -> R -> Z) (pow2frac : Z -> nat -> R),
+  (forall k A, qr_ok OR A (fst (qr k A)) (snd (qr k A))) ->
+  (forall k A, rq_ok OR A (fst (rq k A)) (snd (rq k A))) ->
+  (forall k A, svd_ok OR A (fst (fst (svdo k A))) (snd (fst (svdo k A))) (snd (svdo k A))) ->
+  forall (rcap : Z) (Y : list (core R)) (e : R), wfI (shape Y) Y -> (2 <= length Y)%nat -> (0 <= e)%R ->
+  exists Zs W e',
+    orthogonalize OR qr rq ilog2 Y (Some (Z.of_nat (length Y - 1))) false = Ok (Zs, 0%Z) /\
+    truncate OR svdo eigh argsort qr rq ilog2 pow2frac Y e rcap true false false = Ok W /\
+    (0 <= e')%R /\ (INR (length Y - 1) * (e' * e') = e * e * tnorm2 OR Y)%R /\
+    let s := snd (fst (svdo (length Y - 1)%nat (unfoldR OR (nth (length Y - 1) Zs dcore)))) in
+    cr1 (nth (length Y - 1) W dcore) = rank_select OR (map (fun x => x * x)%R s) (e' * e')%R rcap /\
+    forall q', (1 <= q')%nat -> (q' < cr1 (nth (length Y - 1) W dcore))%nat ->
+      (e' * e' < tailsum (map (fun x => x * x) s) q')%R.
+Proof. exact first_bond_rank. Qed.
+
+Theorem C02_first_bond_svd : forall (P : list (core R)) (G : core R) (Us : mat R) (s : list R) (Vs : mat R),
+  chain 1%nat P (cr1 G) -> Forall (lorth OR) P -> cr2 G = 1%nat -> svd_ok OR (unfoldR OR G) Us s Vs ->
+  (forall c c', (c < length s)%nat -> (c' < length s)%nat ->
+     msum OR (shape P) (fun iL => leftvec OR P Us (cr1 G) iL c * leftvec OR P Us (cr1 G) iL c')%R = if Nat.eqb c c' then 1%R else 0%R) /\
+  (forall iL i, inb (shape P) iL -> (i < cn G)%nat ->
+     get OR (P ++ [G]) (iL ++ [i]) = bsum OR (length s) (fun c => leftvec OR P Us (cr1 G) iL c * nth c s 0 * mget OR Vs c i)%R).
+Proof. exact (first_bond_svd OR OR_rng). Qed.
